@@ -12,3 +12,32 @@ Proof.
   destruct two_d; [|reflexivity]. cbn [negb]. rewrite H. reflexivity.
 Qed.
 Print Assumptions C19_validation.
+
+From PV Require Import Proofs.IncidenceProofs.
+(* the result is reachable from the input by exactly k checkerboard swaps (rows s0 <> s1, columns p0 <> p1,
+   pattern 1 0 / 0 1 turned into 0 1 / 1 0); it has the same shape, the same row and column sums, is binary
+   and differs from the input in at most 4k cells -- for every matrix, every k and every answer tape *)
+Theorem C19_result_is_k_checkerboard_swaps : forall C m two_d k t m' t', rect m C ->
+  permute_incidence_fixed_sums m two_d k t = Ok (m', t') ->
+  reach C k m m' /\ rect m' C /\ length m' = length m /\ same_margins m m' /\ is_binary m' = true /\
+  (diff_cells (length m) C m m' <= 4 * k)%nat.
+Proof. exact pifs_spec. Qed.
+Print Assumptions C19_result_is_k_checkerboard_swaps.
+Theorem C19_one_swap_preserves_margins : forall m s0 s1 p0 p1,
+  (s0 < length m)%nat -> (s1 < length m)%nat ->
+  (p0 < length (nth s0 m []))%nat -> (p1 < length (nth s0 m []))%nat ->
+  (p0 < length (nth s1 m []))%nat -> (p1 < length (nth s1 m []))%nat ->
+  is_checkerboard m s0 s1 p0 p1 = true ->
+  (forall r, row_sum (swap4 m s0 s1 p0 p1) r = row_sum m r) /\
+  (forall c, col_sum (swap4 m s0 s1 p0 p1) c = col_sum m c) /\
+  get (swap4 m s0 s1 p0 p1) s0 p0 = 0 /\ get (swap4 m s0 s1 p0 p1) s0 p1 = 1 /\
+  get (swap4 m s0 s1 p0 p1) s1 p0 = 1 /\ get (swap4 m s0 s1 p0 p1) s1 p1 = 0 /\
+  (forall r c, (r, c) <> (s0, p0) -> (r, c) <> (s0, p1) -> (r, c) <> (s1, p0) -> (r, c) <> (s1, p1) ->
+     get (swap4 m s0 s1 p0 p1) r c = get m r c).
+Proof. exact swap4_preserves_margins. Qed.
+Print Assumptions C19_one_swap_preserves_margins.
+(* non-vacuity: a 2x3 matrix, two swaps, a concrete answer tape *)
+Example C19_nonvacuous :
+  exists m' t', permute_incidence_fixed_sums [[1;0;1];[0;1;0]] true 2 [0;0;1;0;1;0;0;0]%nat = Ok (m', t')
+    /\ m' <> [[1;0;1];[0;1;0]].
+Proof. vm_compute. eexists. eexists. split; [reflexivity|discriminate]. Qed.
